@@ -130,7 +130,7 @@ impl PropImpl for C03 {
          Distinct by text hash.".into()
     }
     fn budget(&self, tier: Tier) -> Budget {
-        Budget { cases_per_lane: if tier == Tier::Quick { 3000 } else { 60_000 }, tape_max: 700, cpu_s: 10 }
+        Budget { cases_per_lane: if tier == Tier::Quick { 15000 } else { 60_000 }, tape_max: 700, cpu_s: 10 }
     }
     fn spaces(&self, _tier: Tier) -> Vec<Space> {
         vec![Space { name: "all layouts of the 2x2 skeleton".into(), size: SKELETON_SIZE, exhaustive: true }]
